@@ -5,6 +5,7 @@ import sys, os, json, subprocess, time, re, shutil, threading, concurrent.future
 from checkdefs import CHECKS
 
 NPROC = os.cpu_count() or 4
+HANG_S = 25          # real seconds without a result line before a worker is declared hung (a run normally takes milliseconds)
 
 
 def log(*a):
@@ -64,14 +65,14 @@ def first_lines(t, key, n=12):
 KNOWN_IDS = ""
 
 
-def run_plan(root, binary, plan_path, scratch, timeout=60, want_log=False):
+def run_plan(root, binary, plan_path, scratch, timeout=HANG_S, want_log=False):
     env = dict(os.environ, SIM_SCRATCH=scratch, SIM_KNOWN=KNOWN_IDS)
     cmd = [os.path.join(root, "build", binary), "--replay", plan_path] + (["--log"] if want_log else [])
     try:
         r = subprocess.run(cmd, cwd=root, env=env, stdout=subprocess.PIPE, stderr=subprocess.PIPE, text=True,
                            errors="replace", timeout=timeout)
     except subprocess.TimeoutExpired:
-        return {"ok": False, "cls": "watchdog-timeout", "hash": "", "detail": "replay exceeded %ds" % timeout, "log": ""}
+        return {"ok": False, "cls": "nonterminating", "hash": "", "detail": "the simulated run did not finish within %d s of real time (the code under test spins or blocks forever)" % timeout, "log": ""}
     out = r.stdout
     for line in out.splitlines():
         if line.startswith("OK "):
@@ -107,6 +108,10 @@ class Minimiser:
     def __init__(self, root, binary, scratch, cls, budget):
         self.root, self.binary, self.scratch, self.cls, self.budget = root, binary, scratch, cls, budget
         self.runs = 0
+        # a hanging candidate costs its whole timeout: keep both small for that class
+        self.run_timeout = 6 if cls == "nonterminating" else HANG_S
+        if cls == "nonterminating":
+            self.budget = min(self.budget, 64)
         self.lock = threading.Lock()
         self.ctr = 0
 
@@ -123,7 +128,7 @@ class Minimiser:
             path = os.path.join(self.scratch, "cand%d.plan" % self.ctr)
         with open(path, "w") as f:
             f.write(join_plan(head, steps))
-        r = run_plan(self.root, self.binary, path, self.scratch)
+        r = run_plan(self.root, self.binary, path, self.scratch, timeout=self.run_timeout)
         os.unlink(path)
         return (not r["ok"]) and self.same_class(r["cls"], self.cls)
 
@@ -254,7 +259,20 @@ def run_batch(root, spec, base_seed, budget, thorough, scratch, nworkers):
             cur = None
             nrun = 0
             fail_line = None
+            # watchdog: a run that produces no result line for HANG_S seconds is a non-terminating run
+            last = [time.time()]
+            hung = [False]
+
+            def watchdog(proc=w.p, last=last, hung=hung):
+                while proc.poll() is None:
+                    time.sleep(0.5)
+                    if time.time() - last[0] > HANG_S:
+                        hung[0] = True
+                        proc.kill()
+                        return
+            threading.Thread(target=watchdog, daemon=True).start()
             for line in w.p.stdout:
+                last[0] = time.time()
                 line = line.rstrip("\n")
                 if line.startswith("RUN "):
                     cur = int(line.split()[1])
@@ -303,6 +321,8 @@ def run_batch(root, spec, base_seed, budget, thorough, scratch, nworkers):
                 with open(w.errpath, errors="replace") as f:
                     err = f.read()
                 cls, detail = classify_crash(err, rc)
+                if hung[0]:
+                    cls, detail = "nonterminating", "the simulated run did not finish within %d s of real time (the code under test spins or blocks forever)" % HANG_S
                 with lock:
                     agg["runs"] += nrun
                     agg["failures"].append({"seed": cur, "cls": cls, "hash": "", "detail": detail, "crash": True, "stderr": err[-6000:]})
